@@ -44,6 +44,12 @@ type StructCase struct {
 	// Token: how the struct type of a per-type rule set is named in SetRule / NestedStructForRule:
 	// "" = &T{}, "nilptr" = (*T)(nil), "ptrptr" = a **T whose inner pointer is nil, "value" = T{} (SetRule only)
 	Token string `json:"token,omitempty"`
+	// Cache: capacity of the struct-type cache during this call (0 = as the process has it): a
+	// fresh LRU of that capacity, so that a nested value holds more struct types than fit and the
+	// type of an object still being walked is evicted in mid-call
+	Cache int `json:"cache,omitempty"`
+	// Many: type and value are those of a many-types case (see ManySpec); Root and Val are empty then
+	Many *ManySpec `json:"many,omitempty"`
 }
 
 // typeToken builds the value that names struct type ty in a registration.
@@ -304,10 +310,17 @@ func (c *StructCase) source() interface{} {
 
 // runStructCase executes the call and the reference walk.
 func runStructCase(c *StructCase) (res *model.Result, errText string, isNil bool, panicked interface{}) {
-	c = c.freshLate()
+	c = c.freshLate().expanded()
 	src := c.source()
 	var err error
+	if c.Cache > 0 && proxyInstalled {
+		proxy.set(valid.NewLRU(c.Cache))
+		ev.Class("struct-type cache smaller than the number of types of the value is possible (capacity 1-3)")
+	}
 	panicked = ev.Guard(func() { err = c.call(src) })
+	if c.Cache > 0 && proxyInstalled {
+		proxy.set(valid.NewLRU(512))
+	}
 	res = model.Walk(c.walkCfg(), reflect.ValueOf(src)) // (after the call: a late registration is part of the call)
 	if err == nil {
 		return res, "", true, panicked
